@@ -30,6 +30,7 @@ def run(prog, rep, tier='quick', config='default'):
     r7c(prog, rep)
     r7d(prog, rep)
     r7e(prog, rep, config)
+    r7f(prog, rep)
 
 
 # ---------------------------------------------------------------------------------------------------- R7a
@@ -476,3 +477,68 @@ def r7e(prog, rep, config='default'):
 
 def fixture():
     return c18.fixture()
+
+
+# ---------------------------------------------------------------------------------------------------- R7f
+def r7f(prog, rep):
+    """nothing but Tx's own order, applied stably, arranges a sequence of Tx (or of the TxDelta made from them). R7a fixes what that
+    order is and R7b that the transactions are sorted before they are split; a later re-sort by another key (trade date), an unstable
+    sort (an adjustment row compares equal to its sale), a reverse / rotate / swap puts the rows of a security into an order in which
+    the ledger was never meant to be walked."""
+    ELEM = re.compile(r'(\[|Vec<)(&(\'\w+ )?)?(portfolio::model::tx::Tx|portfolio::model::txdelta::TxDelta)\b')
+    REORDER = {'sort_by', 'sort_by_key', 'sort_by_cached_key', 'sort_unstable', 'sort_unstable_by', 'sort_unstable_by_key', 'select_nth_unstable',
+               'select_nth_unstable_by', 'select_nth_unstable_by_key', 'reverse', 'rotate_left', 'rotate_right', 'swap', 'swap_remove', 'swap_with_slice'}
+    want_fields = [('settlement_date',), ('read_index',)]
+    n = 0
+    for f in prog.product_fns():
+        if not f.crate.startswith('acb') or mir.is_testsupport(f.name):
+            continue
+        for c in f.calls:
+            if c.short not in REORDER and c.short != 'sort':
+                continue
+            if not ('slice' in c.callee or 'vec::Vec' in c.callee or c.callee.startswith('std::slice::')):
+                continue
+            t = f.ty.get(c.arg_local(0), '') or ''
+            if not ELEM.search(t):
+                continue
+            n += 1
+            owner = f.name.split('::{')[0]
+            k = '%s|tx-sequence-arranged-only-by-the-tx-order|%s' % (owner, c.short)
+            if c.short == 'sort':
+                rep.ok('R7f', k, where=c.where(), fn=f.name, detail='stable sort by the element\'s own Ord')
+                continue
+            why = None
+            if c.short in ('sort_by', 'sort_by_key') and len(c.args) > 1:
+                g = mir._closure_fn_of(prog, f, c.args[1])
+                if g is not None and c.short == 'sort_by':
+                    ch = ordering.chain_of_fn(prog, g)
+                    if ch is not None and [a[1] for a, b in ch] == want_fields and [b[1] for a, b in ch] == want_fields and \
+                            all(a[0] < b[0] for a, b in ch):
+                        rep.ok('R7f', k, where=c.where(), fn=f.name, detail='stable sort comparing ' + ordering.fmt(ch))
+                        continue
+                    if ch is not None and len(ch) == 1 and ch[0][0][1] == () and ch[0][1][1] == () and ch[0][0][0] < ch[0][1][0]:
+                        rep.ok('R7f', k, where=c.where(), fn=f.name, detail='stable sort comparing whole elements with their own order')
+                        continue
+                    why = 'its comparator is %s' % ordering.fmt(ch)
+                elif g is not None:
+                    # the key: a tuple (settlement_date, read_index) of the element
+                    keys = []
+                    for b in g.blocks.values():
+                        for st in b['stmts']:
+                            if st['dst']['l'] == 0 and st['r']['rv'] == 'agg' and st['r']['kind'] == 'tuple':
+                                keys = [tuple(fl for (_of, fl) in mir.place_fields(o['pl'])) if is_place(o) else None for o in st['r']['ops']]
+                                keys = [(mir.provenance(g, o).fields if is_place(o) else set()) for o in st['r']['ops']]
+                    flat = [sorted(fl for (_of, fl) in ks) for ks in keys]
+                    if flat == [['settlement_date'], ['read_index']]:
+                        rep.ok('R7f', k, where=c.where(), fn=f.name, detail='stable sort by the key (settlement_date, read_index)')
+                        continue
+                    why = 'its key is (%s)' % ', '.join('.'.join(x) or '?' for x in flat)
+            if why is None:
+                why = {'reverse': 'it reverses the sequence', 'swap': 'it exchanges two elements', 'swap_remove': 'it moves the last element forward'}.get(
+                    c.short, 'an unstable sort leaves the order of rows that compare equal (an adjustment and its sale) open' if 'unstable' in c.short
+                    else 'it re-arranges the sequence')
+            rep.violation('R7f', k, where=c.where(), fn=f.name,
+                          detail='a sequence of %s is arranged by %s(): %s, not the stable (settlement_date, read_index) order the ledger is walked in'
+                                 % ('TxDelta' if 'TxDelta' in t else 'Tx', c.short, why))
+    if n < 2:
+        rep.violation('R7f', 'anchor-lost:tx-sorts', detail='anchor lost: only %d calls arranging a sequence of Tx found (the global sort and the summary sort expected)' % n)
